@@ -199,3 +199,27 @@ Print Assumptions C05_recover_program_computes_recover.
 Theorem C05_recover_restartable_premises_hold : ex_ok = true.
 Proof. exact recover_restartable_example. Qed.
 Print Assumptions C05_recover_restartable_premises_hold.
+
+(* ---------- Migrate of one segment can be interrupted anywhere (RecoverCrash.migrate_prog: remove the index, re-encode the
+   records into <log>.migrate, rename it over the log, index.Write of the index derived from the new positions; bytes and
+   file-system steps are compared with the real Segment.Migrate on every run of the C17 check).
+   For a clean segment - a log file that is the encoding of messages ms in version v, named after its first record, its index
+   file absent or the one derived from it - and a target version mv <> v: after ANY number k of completed steps and ANY
+   part j of an append in flight, the segment passes Check and its log file is the encoding of exactly the same messages,
+   in the old or in the new version.  (The index is removed FIRST: an old index beside a migrated log would be trusted -
+   positions differ between the versions - which is what the seeded change C17-migrate-keeps-old-index-until-rewritten does.) *)
+Theorem C05_migrate_crash_safe :
+  forall crc H, crc_range crc -> (forall k, 0 <= H k < two64z) ->
+  forall p base v mv iv ms idx0,
+  Forall msg_ok ms -> 0 <= base < two63 ->
+  match ms with [] => True | m :: _ => moff m = base end ->
+  ver_eqb v mv = false ->
+  hdr_size mv + recs_size mv ms < two63 ->
+  index_is p base idx0 (scan_items H p (placed v (hdr_size v) ms)) ->
+  forall prog stale_migrate_tmp stale_index_tmp k j,
+  migrate_prog crc H p base mv iv (enc_log crc v ms) = Ok prog ->
+  let img := rimage (mkRf (enc_log crc v ms) stale_migrate_tmp idx0 stale_index_tmp) prog k j in
+  check_bytes crc H p base (rlog img) (ridx img) = Ok tt /\
+  exists w, (w = v \/ w = mv) /\ rlog img = enc_log crc w ms.
+Proof. exact migrate_crash_safe. Qed.
+Print Assumptions C05_migrate_crash_safe.
